@@ -497,7 +497,7 @@ def run(ctx):
         b = yaml_route(ctx, rng, quick)
         rows, canary = prepare(b, random.Random(1))
         pending.append((b, rows, canary, pool.submit(trace_job, rows, b.label)))
-        if not quick:
+        if True:  # also in the quick tier (17 s): CYP2D6 is the shipped database whose gene and pseudogene regions OVERLAP
             b = na10860_self(ctx)
             if len(b.rows) > 1:
                 pending.append((b, b.rows, {}, pool.submit(trace_job, b.rows, b.label)))
